@@ -84,7 +84,7 @@ func (r *rpT) UnmarshalResourcePath(segments []restlicodec.Reader) error {
 
 type qpT struct{}
 
-func (q *qpT) NewInstance() *qpT                                      { return new(qpT) }
+func (q *qpT) NewInstance() *qpT                                     { return new(qpT) }
 func (q *qpT) DecodeQueryParams(restlicodec.QueryParamsReader) error { return nil }
 
 type capT struct{ raw []byte }
@@ -282,6 +282,19 @@ func applyEdit(w *wireReq, edit string) bool {
 		mw.Close()
 		w.body = buf.Bytes()
 		w.header.Set("Content-Type", "multipart/mixed; boundary="+mw.Boundary())
+	case "extra_unknown_part":
+		if mt != "multipart/mixed" {
+			return false
+		}
+		rebuild(func(c string, d []byte) (string, []byte, bool) { return c, d, true })
+		// append a third part of a type the protocol does not know, after the two expected ones
+		closing := []byte("\r\n--" + params["boundary"] + "--\r\n")
+		if i := bytes.LastIndex(w.body, closing); i >= 0 {
+			extra := "\r\n--" + params["boundary"] + "\r\nContent-Type: text/plain\r\n\r\nnot part of the protocol"
+			w.body = append(append(append([]byte{}, w.body[:i]...), extra...), closing...)
+		} else {
+			return false
+		}
 	case "stray_override":
 		if w.method == "DELETE" {
 			w.header.Set("X-HTTP-Method-Override", "GET")
@@ -478,9 +491,45 @@ func main() {
 		tw := bufio.NewWriter(tf)
 		enc := json.NewEncoder(tw)
 		toks := []string{"a", "&", "=", "%25", "%0D", "%0A", "-", "b", "(", ")", ",", ":", "'", "%20", "+", "q", "List(", "1"}
-		edits := []string{"none", "none", "none", "drop_query_part", "drop_body_part", "unknown_part_type", "empty_query_part", "override_with_url_query", "unknown_top_type"}
+		edits := []string{"none", "none", "none", "none", "drop_query_part", "drop_body_part", "unknown_part_type", "empty_query_part", "override_with_url_query", "unknown_top_type",
+			"reframe_as_multipart", "stray_override", "extra_unknown_part"}
 		verbs := []string{"GET", "DELETE", "PUT", "POST"}
 		bs := []string{"none", "J1", "J2"}
+		// exchanges run on 8 goroutines against the ONE handler: de-tunnelling must not let concurrent requests see each
+		// other's query or body (every exchange is still judged on its own)
+		type job struct {
+			orig AReq
+			qs   string
+			th   int
+			edit string
+		}
+		jobs := make(chan job, 64)
+		var wg sync.WaitGroup
+		var encMu sync.Mutex
+		for w := 0; w < 8; w++ {
+			wg.Add(1)
+			go func() {
+				defer wg.Done()
+				for j := range jobs {
+					o := exchange(h, j.orig, j.qs, j.th, j.edit)
+					if !o.Built {
+						continue
+					}
+					edit := j.edit
+					if !o.Tunnelled && edit != "stray_override" {
+						edit = "none"
+					}
+					if edit == "stray_override" && (o.Tunnelled || j.orig.Verb == "POST") {
+						edit = "none"
+					}
+					encMu.Lock()
+					enc.Encode(map[string]any{"ev": "exchange", "verb": j.orig.Verb, "qlen": len(j.qs), "body": j.orig.Body, "th": j.th, "edit": edit,
+						"tunnelled": o.Tunnelled, "untouched": o.Untouched, "transparent": !o.DecodeErr && o.SameAsRef && o.E2ESame,
+						"rejected": o.Status == 400 && !o.Invoked, "panic": o.Panic != ""})
+					encMu.Unlock()
+				}
+			}()
+		}
 		for i := 0; i < *n; i++ {
 			var q []string
 			for j := rng.Intn(40); j > 0; j-- {
@@ -494,18 +543,10 @@ func main() {
 			if th < 0 {
 				th = 0
 			}
-			edit := edits[rng.Intn(len(edits))]
-			o := exchange(h, orig, qs, th, edit)
-			if !o.Built {
-				continue
-			}
-			if !o.Tunnelled {
-				edit = "none"
-			}
-			enc.Encode(map[string]any{"ev": "exchange", "verb": orig.Verb, "qlen": len(qs), "body": orig.Body, "th": th, "edit": edit,
-				"tunnelled": o.Tunnelled, "untouched": o.Untouched, "transparent": !o.DecodeErr && o.SameAsRef && o.E2ESame,
-				"rejected": o.Status == 400 && !o.Invoked, "panic": o.Panic != ""})
+			jobs <- job{orig, qs, th, edits[rng.Intn(len(edits))]}
 		}
+		close(jobs)
+		wg.Wait()
 		tw.Flush()
 		tf.Close()
 	}
